@@ -59,7 +59,7 @@ instance (n : Option Node) : Decidable (ReadableNode n) := by
   split <;> infer_instance
 
 /-- `get_object` may be compared with the store, for every range: names agree; for admissible names, when the bucket
-    exists the path is not a leftover directory [else fs:leftover-directory]. A missing bucket is inside since 391a940
+    exists the path is not a leftover directory [else fs:leftover-directory]. A missing bucket is inside since cc244fc
     (`NoSuchBucket` on both sides; before: fs:missing-bucket-reported-as-missing-key) -/
 def GetOk (s : State) (b k : Bytes) : Prop :=
   NameOk b ∧ CanonKey k ∧ sideTooLong b k false = false ∧
